@@ -123,8 +123,11 @@ func (c *C11) AfterTx(w *World, t *TxCtx) {
 						v1, _ = DecOrZero(nb.Balance)
 					}
 				}
+				// the batch's own start date (Batch table), not the copy kept in the basket balance row
 				st := big.NewInt(0)
-				if bb.BatchStartDate != nil {
+				if b := pre.BatchByDenom(bb.BatchDenom); b != nil && b.StartDate != nil {
+					st = tsNanos(b.StartDate.Seconds, b.StartDate.Nanos)
+				} else if bb.BatchStartDate != nil {
 					st = tsNanos(bb.BatchStartDate.Seconds, bb.BatchStartDate.Nanos)
 				}
 				ents = append(ents, ent{bb.BatchDenom, st, v0, v1})
